@@ -1103,3 +1103,24 @@ pub fn tovec(kind: &str, bytes: Vec<u8>) -> Option<Result<Result<String, String>
         _ => return None,
     })
 }
+
+// ---------------------------------------------------------------- custom value types of the C22 corpus
+// (`#[derive(DbValue)]` stores them as `DbValue::Bytes(serialize())`)
+
+#[derive(Debug, Clone, PartialEq, Default, agdb::DbValue, agdb::DbSerialize, agdb::DbTypeMarker)]
+pub enum Status {
+    #[default]
+    Active,
+    Inactive(u64),
+    Named {
+        s: String,
+    },
+}
+tv_enum!(Status { 0 Active [], 1 Inactive(p: u64), 2 Named { s: String } });
+
+#[derive(Debug, Clone, PartialEq, Default, agdb::DbValue, agdb::DbSerialize, agdb::DbTypeMarker)]
+pub struct Point {
+    pub x: i64,
+    pub y: i64,
+}
+tv_named!(Point { x: i64, y: i64 });
